@@ -40,6 +40,9 @@ def generate(degree, num_ctrlpts, **kwargs):
     # Get keyword arguments
     clamped = kwargs.get('clamped', True)
 
+    if clamped and num_ctrlpts < degree + 1:
+        raise ValueError("Number of control points should be at least degree + 1.")
+
     # Number of repetitions at the start and end of the array
     num_repeat = degree
 
